@@ -146,11 +146,12 @@ def abs_comprehension(C, e, g, it, st, fr, as_list):
             st.note_ref(L.ek[4:], w)
         return ex.ok(R, st)
     res, fresh = pure_eval(C, e.elt, scratch, cfr, 'comprehension element')
-    if len(res) != 1:
-        raise Unsupported('comprehension element with several outcomes')
     if fresh and not isinstance(res[0][1], SStr):
         raise Unsupported('comprehension element introduces new symbols')
     val = res[0][1]
+    for dpc, v2, _s in res[1:]:
+        # several outcomes (conditional expressions): merged into one if-then-else value
+        val = C.ite_sv(z3.And(*dpc) if dpc else z3.BoolVal(True), v2, val)
     if isinstance(val, (SInt, SVal, SRef, SStr, SBool)):
         vt = val.t
         ek2 = {'int': 'int', 'val': 'val', 'str': 'str', 'bool': 'bool'}.get(val.kind) or ('ref:' + val.cname)
@@ -489,14 +490,18 @@ def havoc_state(C, st, W, tag, visited=None, consts=None):
                 # its value (frame); elements already visited hold what the body left there
                 arr = old
                 if any(t is ELEM for t in at):
-                    y = z3.Int('y!fr')
+                    # a fresh array described by a fact schema (kept out of the terms: selects stay simple):
+                    #   forall y. F[y] == (visited(y) ? value-left-by-the-body : old[y])
                     cval = (consts or {}).get(k)
+                    F = z3.Const(nm('Fv_%s_%s' % (k[0].rsplit('.', 1)[-1], k[1])), old.sort())
                     if cval is not None:
-                        newv = cval
+                        fact = (lambda y, F=F, o=old, vis=visited, cv=cval:
+                                z3.Select(F, y) == z3.If(vis(y), cv, z3.Select(o, y)))
                     else:
-                        G = z3.Const(nm('Gv_%s_%s' % (k[0].rsplit('.', 1)[-1], k[1])), old.sort())
-                        newv = z3.Select(G, y)
-                    arr = z3.Lambda([y], z3.If(visited(y), newv, z3.Select(old, y)))
+                        fact = (lambda y, F=F, o=old, vis=visited:
+                                z3.Implies(z3.Not(vis(y)), z3.Select(F, y) == z3.Select(o, y)))
+                    s.facts.append((k[0], fact))
+                    arr = F
                 for t in at:
                     if t is ELEM:
                         continue
@@ -790,6 +795,12 @@ def cut_loop(C, kind, s, st, fr, L=None):
             h.note_ref(x.cname, e)
             if isinstance(x.cls, str) is False:
                 h.assume(e >= 1)
+            # what the fact schemas say about this element goes into the path condition itself
+            for cname, fn in h.facts:
+                if cname == x.cname:
+                    f = fn(e)
+                    if f is not None:
+                        h.assume(f)
         return ex.assign(s.target, x, h, fr)
 
     def guard_outs(h):
